@@ -3,6 +3,7 @@
   text is one word that the tokenizer classifies as a float token (never as an integer).
 -/
 import Tulisp.Proofs.C09Lex
+import Tulisp.Proofs.C09Shortest
 import Tulisp.Model.Num
 namespace Tulisp.C09
 open Tulisp
@@ -115,9 +116,6 @@ theorem wordTok_float_shape (neg : Bool) (n : Nat) :
 
 /-! ## printing side: integral floats print as `-?digits.0` -/
 
-theorem pow2_eq (k : Nat) : pow2 k = 2 ^ k := by
-  simp [pow2, Nat.shiftLeft_eq]
-
 theorem frac_zero {m k : Nat} (h : m % pow2 k = 0) : (m * 5 ^ k) % 10 ^ k = 0 := by
   rw [pow2_eq] at h
   obtain ⟨q, rfl⟩ := Nat.dvd_of_mod_eq_zero h
@@ -181,20 +179,37 @@ theorem expField_ne {b : UInt64} {t} (hd : f64Decode b = some t) :
     rw [hx'] at hd
     simp at hd
 
-theorem display_of_decode {b : UInt64} {t} (hd : f64Decode b = some t) :
-    f64Display b = f64ExactDecimal b := by
-  have := expField_ne hd
-  simp [f64Display, f64IsNaN, f64IsInf, this]
+/-- the sign prefix -/
+def signStr (neg : Bool) : String := if neg then "-" else ""
 
+/-- a finite float is displayed by the exact printer where that applies, by the shortest
+    round-trip printer (with its sign) otherwise -/
+theorem display_of_decode {b : UInt64} {t} (hd : f64Decode b = some t) :
+    f64Display b = match f64ExactDecimal b with
+      | some s => some s
+      | none => (f64ShortestAbs b).map fun s => signStr (f64IsNeg b) ++ s := by
+  have := expField_ne hd
+  simp [f64Display, f64IsNaN, f64IsInf, this, signStr]
+  rfl
+
+/-- **exact printing is kept**: a finite float with a short exact decimal expansion is displayed
+    as that expansion -/
+theorem f64Display_exact {b : UInt64} {t} (hd : f64Decode b = some t) {s : String}
+    (h : f64ExactDecimal b = some s) : f64Display b = some s := by
+  rw [display_of_decode hd, h]
+
+/-- **the extension**: every other finite float is displayed by the shortest round-trip printer,
+    `-` in front for negative floats -/
+theorem f64Display_shortest {b : UInt64} {t} (hd : f64Decode b = some t)
+    (h : f64ExactDecimal b = none) :
+    f64Display b = (f64ShortestAbs b).map fun s => (if f64IsNeg b then "-" else "") ++ s := by
+  rw [display_of_decode hd, h]; rfl
 
 theorem ite_none_some {α : Type} {c : Prop} [Decidable c] {x : Option α} {s : α}
     (h : (if c then none else x) = some s) : x = some s := by
   split at h
   · cases h
   · exact h
-
-/-- the sign prefix -/
-def signStr (neg : Bool) : String := if neg then "-" else ""
 
 theorem exactDecimal_integral {b : UInt64} {neg : Bool} {m : Nat} {e : Int} {s : String}
     (hd : f64Decode b = some (neg, m, e)) (hc : m = 0 ∨ e ≥ 0 ∨ m % pow2 (-e).toNat = 0)
@@ -232,20 +247,77 @@ theorem exactDecimal_integral {b : UInt64} {neg : Bool} {m : Nat} {e : Int} {s :
 theorem signStr_toList (neg : Bool) : (signStr neg).toList = if neg then ['-'] else [] := by
   cases neg <;> rfl
 
-/-- integral floats display as `sign ++ digits ++ ".0"` -/
+/-- the shortest printer, on an integral float, gives a plain digit string: the precision at which
+    the integer value itself is a candidate is reached, and there the value reads back exactly
+    (`ratToF64Abs_integral`), so no candidate with a fractional part is ever printed -/
+theorem shortestAbs_integral {b : UInt64} {neg : Bool} {m : Nat} {e : Int} {s : String}
+    (hd : f64Decode b = some (neg, m, e)) (hc : m = 0 ∨ e ≥ 0 ∨ m % pow2 (-e).toNat = 0)
+    (h : f64ShortestAbs b = some s) : ∃ n : Nat, s = natDigits n := by
+  unfold f64ShortestAbs at h
+  rw [hd] at h
+  dsimp only at h
+  by_cases hm : m = 0
+  · rw [if_pos hm] at h; cases h
+  rw [if_neg hm] at h
+  have hc' : e ≥ 0 ∨ m % pow2 (-e).toNat = 0 := hc.resolve_left hm
+  have hex := ratToF64Abs_integral hd hm hc'
+  have hm0 : 0 < m := Nat.pos_of_ne_zero hm
+  by_cases he : e ≥ 0
+  · rw [if_pos he] at h hex
+    dsimp only at h
+    have hV : 0 < m * pow2 e.toNat := Nat.mul_pos hm0 (by rw [pow2_eq]; exact Nat.pow_pos (by decide))
+    refine shortestFrom_integral _ _ _ _ 20 1 s ?_ ?_ h
+    · have := decExp_nonneg (m * pow2 e.toNat) 1 hV (by decide)
+      omega
+    · simp [backOk, readCand, hex, hV]
+  · rw [if_neg he] at h hex
+    dsimp only at h
+    have hz : m % pow2 (-e).toNat = 0 := hc'.resolve_left he
+    have hp : 0 < pow2 (-e).toNat := by rw [pow2_eq]; exact Nat.pow_pos (by decide)
+    have hle : pow2 (-e).toNat ≤ m := Nat.le_of_dvd hm0 (Nat.dvd_of_mod_eq_zero hz)
+    refine shortestFrom_integral _ _ _ _ 20 1 s ?_ ?_ h
+    · have := decExp_nonneg m (pow2 (-e).toNat) hle hp
+      omega
+    · simp [backOk, readCand, hex, Nat.div_pos hle hp]
+
+/-- the integer value of a decoded finite float (truncated; exact for integral floats) -/
+def intVal (m : Nat) (e : Int) : Nat := if e ≥ 0 then m * pow2 e.toNat else m / pow2 (-e).toNat
+
+theorem f64ExactInt_of_decode {b : UInt64} {neg : Bool} {m : Nat} {e : Int}
+    (hd : f64Decode b = some (neg, m, e)) :
+    f64ExactInt b = some (signStr neg ++ natDigits (intVal m e)) := by
+  unfold f64ExactInt
+  rw [hd]
+  rfl
+
+/-- integral finite floats are printed with all digits of their integer value, then `.0` -/
+theorem f64DisplayLisp_integral {b : UInt64} (hi : f64IsIntegral b = true) :
+    f64DisplayLisp b = (f64ExactInt b).map (· ++ ".0") := by
+  unfold f64DisplayLisp
+  rw [if_pos hi]
+
+/-- the other floats (non-integral, infinite, NaN) are printed by `f64Display` -/
+theorem f64DisplayLisp_nonintegral {b : UInt64} (hi : f64IsIntegral b = false) :
+    f64DisplayLisp b = f64Display b := by
+  unfold f64DisplayLisp
+  rw [hi]
+  rfl
+
+/-- an integral float with decoding `(neg, m, e)` prints as sign, all digits of its integer value,
+    `.0` -/
+theorem f64DisplayLisp_integral_decode {b : UInt64} {neg : Bool} {m : Nat} {e : Int}
+    (hd : f64Decode b = some (neg, m, e)) (hi : f64IsIntegral b = true) :
+    f64DisplayLisp b = some (signStr neg ++ natDigits (intVal m e) ++ ".0") := by
+  rw [f64DisplayLisp_integral hi, f64ExactInt_of_decode hd]
+  rfl
+
+/-- integral floats display as `sign ++ digits ++ ".0"` (all digits of the integer value) -/
 theorem f64DisplayLisp_integral_eq (b : UInt64) (s : String) (h : f64DisplayLisp b = some s)
     (hi : f64IsIntegral b = true) :
     ∃ (neg : Bool) (n : Nat), s = signStr neg ++ natDigits n ++ ".0" := by
-  obtain ⟨neg, m, e, hd, hc⟩ := decode_of_integral hi
-  unfold f64DisplayLisp at h
-  rw [display_of_decode hd, hi] at h
-  cases hx : f64ExactDecimal b with
-  | none => rw [hx] at h; cases h
-  | some t =>
-    rw [hx] at h
-    obtain ⟨n, rfl⟩ := exactDecimal_integral hd hc hx
-    simp only [if_true] at h
-    exact ⟨neg, n, (Option.some.inj h).symm⟩
+  obtain ⟨neg, m, e, hd, _⟩ := decode_of_integral hi
+  rw [f64DisplayLisp_integral_decode hd hi] at h
+  exact ⟨neg, intVal m e, (Option.some.inj h).symm⟩
 
 /-- the printed form of an integral float is `-?digits.0` -/
 theorem f64DisplayLisp_integral_shape (b : UInt64) (s : String) (h : f64DisplayLisp b = some s)
@@ -273,6 +345,55 @@ theorem f64DisplayLisp_integral_float (b : UInt64) (s : String) (h : f64DisplayL
   · intro k hk
     rw [ht] at hk
     cases hk
+
+/-! ## the shortest printer round-trips -/
+
+/-- **Round trip of the shortest printer.**  What `f64ShortestAbs` prints for `b` is the text
+    (`renderCand sh c`: the digits of `c` with the point `sh` places from the right, or `c` followed by
+    `-sh` zeros) of a positive decimal candidate `c · 10^(-sh)` which the correctly rounded reading
+    `ratToF64Abs` maps back to the bits of `b` (sign removed). -/
+theorem f64ShortestAbs_roundtrip {b : UInt64} {s : String} (h : f64ShortestAbs b = some s) :
+    ∃ (sh : Int) (c : Nat), s = renderCand sh c ∧ 0 < c ∧ readCand sh c = b &&& ~~~signBit := by
+  unfold f64ShortestAbs at h
+  split at h
+  · cases h
+  · split at h
+    · cases h
+    · obtain ⟨q, c, _, _, _, h4, h5, h6, _⟩ := shortestFrom_roundtrip _ _ _ _ _ _ _ h
+      exact ⟨_, c, h4, h5, h6⟩
+
+/-- … at the level of `f64Display`: a finite float outside the domain of the exact printer is
+    displayed as sign + the text of a decimal candidate that reads back as its bits (sign removed) -/
+theorem f64Display_roundtrip {b : UInt64} {t} (hd : f64Decode b = some t)
+    (hx : f64ExactDecimal b = none) {s : String} (h : f64Display b = some s) :
+    ∃ (sh : Int) (c : Nat), s = signStr (f64IsNeg b) ++ renderCand sh c ∧ 0 < c ∧
+      readCand sh c = b &&& ~~~signBit := by
+  rw [display_of_decode hd, hx] at h
+  cases hy : f64ShortestAbs b with
+  | none => rw [hy] at h; cases h
+  | some u =>
+    rw [hy] at h
+    obtain ⟨sh, c, rfl, h2, h3⟩ := f64ShortestAbs_roundtrip hy
+    exact ⟨sh, c, (Option.some.inj h).symm, h2, h3⟩
+
+/-! ### examples of the extension (all by kernel evaluation) -/
+
+/-- 0.1 has no short exact expansion; it now prints as `0.1` -/
+example : f64ExactDecimal 0x3FB999999999999A = none := by decide
+example : f64Display 0x3FB999999999999A = some "0.1" := by decide
+/-- -1/3 -/
+example : f64Display 0xBFD5555555555555 = some "-0.3333333333333333" := by decide
+/-- 2^53 is integral, has 16 digits (outside the exact printer of `{}`), and prints as digits + `.0` -/
+example : f64IsIntegral 0x4340000000000000 = true := by decide
+example : f64ExactDecimal 0x4340000000000000 = none := by decide
+example : f64DisplayLisp 0x4340000000000000 = some "9007199254740992.0" := by decide
+/-- -1e16 -/
+example : f64DisplayLisp 0xC341C37937E08000 = some "-10000000000000000.0" := by decide
+/-- 2^62: all 19 digits of the integer (the shortest round-trip rendering would be 4611686018427388000) -/
+example : f64DisplayLisp 0x43D0000000000000 = some "4611686018427387904.0" := by decide
+example : f64Display 0x43D0000000000000 = some "4611686018427388000" := by decide
+/-- the candidate behind `0.1`: `c = 1` at scale `sh = 1` reads back as the bits of 0.1 -/
+example : renderCand 1 1 = "0.1" ∧ readCand 1 1 = 0x3FB999999999999A := by decide
 
 /-! ## non-vacuity: 1.0, -2.0, 0.0 -/
 
